@@ -23,8 +23,31 @@ func main() {
 	verbose := flag.Bool("v", false, "print every obligation")
 	only := flag.String("only", "", "print only obligations whose key contains this string")
 	genRef := flag.Bool("gen-funcref", false, "print the function reference table for core/funcref.json (tooling)")
+	genObj := flag.Bool("gen-objref", false, "print the object reference table for core/objref.json (tooling)")
 	dumpPF := flag.Bool("dump-pf1", false, "print every PF1 site as func|kind|raw|normalised (tooling)")
 	flag.Parse()
+	if *genObj {
+		p, err := core.Load(*repo, "", "")
+		if err != nil {
+			panic(err)
+		}
+		all := p.GenObjRefs()
+		type k struct{ a, b, c string }
+		have := map[k]bool{}
+		for _, r := range all {
+			have[k{r.Pkg, r.Owner, r.Name}] = true
+		}
+		if pw, err := core.Load(*repo, "windows", ""); err == nil {
+			for _, r := range pw.GenObjRefs() {
+				if !have[k{r.Pkg, r.Owner, r.Name}] {
+					all = append(all, r)
+				}
+			}
+		}
+		b, _ := json.MarshalIndent(all, "", " ")
+		os.Stdout.Write(b)
+		return
+	}
 	if *genRef {
 		p, err := core.Load(*repo, "", "")
 		if err != nil {
